@@ -155,7 +155,7 @@ func (q *QueryRangeService) exportStreamsValue(out chan []shared.LogEntry,
 				onErr(e.Err, res)
 				return
 			}
-			if lastFp != e.Fingerprint {
+			if i == 0 || lastFp != e.Fingerprint {
 				if i > 0 {
 					// Close previous stream entry
 					stream.WriteArrayEnd()
